@@ -144,8 +144,8 @@ class STIXPatternVisitorForSTIX2():
             return children[0]
         else:
             if isinstance(children[0], _BooleanExpression) and same_boolean_operator(children[0].operator, children[1]):
-                children[0].operands.append(children[2])
-                return children[0]
+                # rebuild the node so that root_types is computed from all operands
+                return self.instantiate("OrBooleanExpression", children[0].operands + [children[2]])
             else:
                 return self.instantiate("OrBooleanExpression", [children[0], children[2]])
 
@@ -157,8 +157,8 @@ class STIXPatternVisitorForSTIX2():
             return children[0]
         else:
             if isinstance(children[0], _BooleanExpression):
-                children[0].operands.append(children[2])
-                return children[0]
+                # rebuild the node so that root_types is computed (and checked) from all operands
+                return self.instantiate("AndBooleanExpression", children[0].operands + [children[2]])
             else:
                 return self.instantiate("AndBooleanExpression", [children[0], children[2]])
 
